@@ -91,11 +91,13 @@ def main():
     for r in allr:
         fired = [k for k, v in r.get("checks", {}).items() if v["fired"]]
         sig = next((v["signatures"][0] for v in r.get("checks", {}).values() if v["signatures"]), "")
+        eq = index.get(r["name"], {}).get("equivalent")
         lines.append(f"| {r['name']} | {','.join(r['properties'])} | {'yes' if r.get('upstream_pass') else 'NO: ' + str(r.get('upstream_suite', ''))[:40]} | "
-                     f"{'yes' if r.get('baseline_pass') else 'NO'} | {','.join(fired) or '**MISSED**'} | {sig[:70]} |")
+                     f"{'yes' if r.get('baseline_pass') else 'NO'} | {','.join(fired) or ('not caught: equivalent (' + eq + ')' if eq else '**MISSED**')} | {sig[:70]} |")
     n = len(allr)
     c = sum(1 for r in allr if r.get("caught"))
-    lines += ["", f"caught {c} of {n}"]
+    e = sum(1 for r in allr if not r.get("caught") and index.get(r["name"], {}).get("equivalent"))
+    lines += ["", f"caught {c} of {n}; {e} not caught are argued to be equivalent; {n - c - e} missed"]
     (HERE / "RESULTS.md").write_text("\n".join(lines) + "\n")
     print(f"caught {c} of {n}")
 
